@@ -20,7 +20,7 @@ import pyarrow as pa
 from pyarrow import ipc
 
 from harness.common import rpcutil
-from harness.common.svcgen import ScriptState
+from harness.common.svcgen import OUT_SCHEMA, Hdr, ScriptState
 from vgi_rpc.rpc import RpcServer, ShmPipeTransport, Stream, make_pipe_pair, make_unix_pair
 
 
@@ -30,6 +30,8 @@ class ProbeProtocol(Protocol):
     def echo(self, s: str) -> str: ...
     def boom(self, a: int) -> int: ...
     def badstream(self, a: int) -> Stream[ScriptState]: ...
+    def okstream(self, a: int) -> Stream[ScriptState]: ...
+    def hdrstream(self, a: int) -> Stream[ScriptState, Hdr]: ...
 
 
 class ProbeProtocolV(Protocol):
@@ -40,6 +42,8 @@ class ProbeProtocolV(Protocol):
     def echo(self, s: str) -> str: ...
     def boom(self, a: int) -> int: ...
     def badstream(self, a: int) -> Stream[ScriptState]: ...
+    def okstream(self, a: int) -> Stream[ScriptState]: ...
+    def hdrstream(self, a: int) -> Stream[ScriptState, Hdr]: ...
 
 
 class ProbeImpl:
@@ -58,6 +62,13 @@ class ProbeImpl:
     def badstream(self, a: int) -> Stream[ScriptState]:
         """A header-less stream whose init always fails: the server answers and then drains the client's input stream."""
         raise ValueError("init refused")
+
+    def okstream(self, a: int) -> Stream[ScriptState]:
+        """A header-less producer that finishes at once."""
+        return Stream(output_schema=OUT_SCHEMA, state=ScriptState(prog="[]"))
+
+    def hdrstream(self, a: int) -> Stream[ScriptState, Hdr]:
+        return Stream(output_schema=OUT_SCHEMA, state=ScriptState(prog="[]"), header=Hdr(h=1))
 
 
 ADD_SCHEMA = pa.schema([pa.field("a", pa.int64(), nullable=False), pa.field("b", pa.int64(), nullable=False)])
@@ -90,6 +101,22 @@ def probe_server(version: str | None) -> RpcServer:
     if version not in _SERVERS:
         _SERVERS[version] = RpcServer(ProbeProtocol if version is None else ProbeProtocolV, ProbeImpl())
     return _SERVERS[version]
+
+
+def unblock(transport: Any) -> None:
+    """End the OUTGOING direction of a transport without touching its reader: a thread may be blocked in that reader, and
+    closing a BufferedReader from another thread waits for the lock the blocked read holds (a deadlock of the harness itself).
+    The peer then reads EOF, leaves its loop and closes its own side, which in turn unblocks our reader."""
+    import socket
+
+    t = getattr(transport, "_pipe", transport)
+    sock = getattr(t, "_sock", None)
+    if sock is not None:
+        with contextlib.suppress(Exception):
+            sock.shutdown(socket.SHUT_RDWR)
+        return
+    with contextlib.suppress(Exception):
+        t._writer.close()
 
 
 class Probe:
@@ -125,7 +152,9 @@ class Probe:
 
             self.ct._sock.shutdown(socket.SHUT_WR)
 
-    def send(self, data: bytes, half_close: bool = False, deadline: float = 5.0) -> dict[str, Any]:
+    def send(self, data: bytes, half_close: bool = False, deadline: float = 5.0, finish: bytes = b"") -> dict[str, Any]:
+        """Write `data`, wait for ONE reply stream, then write `finish` (what a lockstep peer sends only after it has seen the
+        reply, e.g. the end of a refused stream call's input stream), then the sentinel call."""
         out: dict[str, Any] = {"reply": None, "sentinel": None, "read_exc": None}
 
         def client() -> None:
@@ -142,6 +171,8 @@ class Probe:
                     out["read_exc"] = f"{type(e).__name__}: {str(e)[:100]}"
                     return
                 if not half_close:
+                    if finish:
+                        self.ct.writer.write(finish)
                     self.ct.writer.write(rpcutil.request_bytes("add", ADD_SCHEMA, {"a": 2, "b": 3}, protocol_version=self.version))
                     self.ct.writer.flush()
                     try:
@@ -156,6 +187,8 @@ class Probe:
         c.start()
         c.join(deadline)
         hung = c.is_alive()
+        live = out
+        out = dict(live)      # what was observed by the deadline (the client thread may still fill `live` once it is unblocked)
         if half_close and not hung:
             self.th.join(deadline)
         out["hung"] = hung
@@ -174,8 +207,13 @@ class Probe:
         return out
 
     def close(self) -> None:
-        with contextlib.suppress(Exception):
-            self.ct.close()
+        unblock(self.ct)
         self.th.join(3)
-        with contextlib.suppress(Exception):
-            self.st.close()
+        if self.th.is_alive():
+            unblock(self.st)
+            self.th.join(3)
+        if not self.th.is_alive():
+            with contextlib.suppress(Exception):
+                self.ct.close()
+            with contextlib.suppress(Exception):
+                self.st.close()
